@@ -13,7 +13,7 @@ INV_C10 = ["RoutingOK", "ExitsReduceOnly", "ExitCorrespondence", "NoExitWhenFlat
 INV_C06 = ["HooksFaithful", "OneTradePerCycle", "TradeFaithful", "WalletIdentity", "FlatAtEnd", "NoLivelock"]
 
 
-def model_cfg(depth=10, maxord=6, multi=False, oversize=False, wrong=False, edit=1, rrepl=False, rclamp=False,
+def model_cfg(depth=10, maxord=6, multi=False, oversize=False, wrong=False, edit=1, rrepl=True, rclamp=True,
               invariants=(), emit=False):
     b = lambda x: "TRUE" if x else "FALSE"
     return ("SPECIFICATION Spec\nVIEW View\nALIAS Alias\nCONSTRAINT Bound\nCHECK_DEADLOCK FALSE\n"
@@ -25,8 +25,7 @@ def model_cfg(depth=10, maxord=6, multi=False, oversize=False, wrong=False, edit
 
 WIT_C10 = ["CancelYes", "CancelNo", "BothExitsAtAfter", "ExitReplacedByEdit", "EntryStop", "EntryLimit", "EntryMarket",
            "ExitStop", "ExitLimit", "ExitMarket", "FlatAfterCloseWithCancel"]
-WIT_C06 = ["ShortCycle", "ForcedClose", "FlatAfterCloseWithCancel"]
-WIT_C06_REPAIRED = ["LongCycle3", "Reduced"]        # cycles with reductions: only free of the oversize deviation in the repaired model
+WIT_C06 = ["ShortCycle", "ForcedClose", "FlatAfterCloseWithCancel", "LongCycle3", "Reduced"]
 
 
 def witnesses(ctx, names, **consts):
@@ -140,9 +139,16 @@ def edit_words(trace):
     return words
 
 
+def _run_any(item):
+    if item.get('kind') == 'routes':          # multi-route session (2-3 routes, on_route_* hooks that may edit exits)
+        from . import route_runs
+        return route_runs.run_item(item)
+    return D.run_item(item)
+
+
 def run_vivo(ctx, items):
     D.warm_parent()
-    res = S.run_isolated(D.run_item, items, procs=ctx.pick(10, 14), chunk=4)       # every session starts with reset_process_state()
+    res = S.run_isolated(_run_any, items, procs=ctx.pick(10, 14), chunk=4)       # every session starts with reset_process_state()
     traces, by_id = [], {}
     for it, r in zip(items, res):
         if isinstance(r, tuple):
@@ -171,7 +177,12 @@ def vivo_items(ctx, count, kinds, n_minutes, id0=0):
     items = D.gen_items(ctx.seed, count, kinds, n_minutes)
     for it in items:
         it["id"] += id0
-    return items
+    from . import route_runs
+    extra = route_runs.gen_items(ctx.seed + 3, max(4, count // 12), n_steps=40)       # multi-route sessions with reactions in on_route_* hooks
+    for it in extra:
+        it["id"] += id0 + len(items)
+        it["policy"]["p_edit_route"] = 0.3
+    return items + extra
 
 
 def replay_payload(ctx, payload, module):
